@@ -8,13 +8,15 @@ A  TLC: on every small sane tree the _match machine terminates (<>Done under wea
    these trees it still terminates whenever Sane holds; witnesses: some corrupted tree loops for ever, and
    it already does when only the parent links of the root's children are left unchecked.
 B  spec -> code: (1) TLC enumerates two-rule schemas with undefined / temporary / cyclic references and
-   signers and patterns that occur nowhere, with WellFormed and NoSelfSigner; compile_lvs + Checker must raise
+   signers and patterns that occur nowhere (and three-rule ones where the bad signer list belongs to a SECOND
+   definition of #r1 with the same name), with WellFormed and NoSelfSigner; compile_lvs + Checker must raise
    SemanticError exactly on the ill-formed ones (and accept well-formed ones without a self-signing name
    pattern).  (2) TLC enumerates the small trees and all their parent-link corruptions with Sane; the real
    loader is run on the encoded tree: not Sane => LvsModelError; accepted => every match terminates within
    the step budget.
-C  code -> spec: seeded well-formed schemas; (i) one injected static error of each kind at every position,
-   judged by TLC (WellFormed); (ii) every single-field corruption of the compiled binary model (version,
+C  code -> spec: seeded well-formed schemas; (i) one injected static error of each kind at every position - every
+   definition of a rule defined several times (twin definitions with the same name included), cycles once through
+   the first and once through the last definitions - judged by TLC (WellFormed); (ii) every single-field corruption of the compiled binary model (version,
    node ids, parents, edge destinations, signer ids, option shapes, missing tag), the corrupted model as the
    loader parses it judged by TLC (Sane); (iii) every query on every accepted model under a step budget
    derived from the spec (sys.settrace line counter on Checker._match).
@@ -234,6 +236,11 @@ def corruptions(wire):
         return cw, js
     for name, v in (('missing', None), ('newer', bny.VERSION + 1), ('older', bny.MIN_SUPPORTED_VERSION - 1), ('zero', 0)):
         yield 'version-' + name, (), setattr_(['version'], v)
+    # StartId: not among the documented sanity rules (LvsTree!Reach: no root, nothing reachable, every rule holds
+    # vacuously) - exercised so that whatever the loader does with such a model is seen, and an accepted one is queried
+    for name, v in (('missing', None), ('beyond', n), ('other', (start + 1) % n if n > 1 else None)):
+        if name == 'missing' or v is not None:
+            yield 'start-' + name, (), setattr_(['start_id'], v)
     for i in range(n):
         for name, v in (('next', (i + 1) % n if n > 1 else 1), ('beyond', n), ('missing', None)):
             if v != i:
@@ -277,6 +284,21 @@ def corruptions(wire):
             def f(m, i=i):
                 m.nodes[i].sign_cons = [n]
             yield 'signer-added-beyond', (i,), mut(f)
+        # signer ids that stay in range: the documented rule ("refers to an existing node") holds, also when the new
+        # id closes a signing cycle among the nodes (the node itself / a node it signs) - no documented sanity rule of
+        # the binary format speaks of cycles, so no outcome is prescribed; accepted models are queried under the budget
+        if nd.rule_name:
+            signed_by_me = next((q for q in range(n) if i in base.nodes[q].sign_cons), None)
+            for name, v in (('self', i), ('signee', signed_by_me), ('root', start)):
+                if v is None or (name == 'root' and v == i):
+                    continue
+
+                def f(m, i=i, v=v):
+                    if m.nodes[i].sign_cons:
+                        m.nodes[i].sign_cons[0] = v
+                    else:
+                        m.nodes[i].sign_cons = [v]
+                yield 'signer-inrange-' + name, (i,), mut(f)
         for j, e in enumerate(nd.p_edges):
             yield 'tag-missing', (i, j), setattr_(['nodes', i, 'p_edges', j, 'tag'], None)
             for a, c in enumerate(e.cons_sets):
@@ -459,7 +481,7 @@ def stage_c(ctx, procs):
     gen = K.Gen(rng, p_forward=0.12, force_twin=0.5, foreign=0.3, flat=0.3)
     wrecs, srecs, meta = [], [], {}
     sid = 0
-    ninj = ncor = nterm = 0
+    ninj = ncor = nterm = nlater = 0
     kinds_seen = {}
     originals = []
     jobs = []                              # (sid, kind, pos, text, rules)
@@ -484,9 +506,14 @@ def stage_c(ctx, procs):
         ctx.sample({'kind': 'C-schema', 'text': text, 'outcome': oc}, limit=2)
         if s >= nschema:
             continue
+        multi = {r['id'] for k, r in enumerate(rules) if any(q['id'] == r['id'] for q in rules[:k])}
         for kind, pos, bad in injections(rules):
             sid += 1
             ninj += 1
+            # the error sits in a second or later definition of a rule
+            nlater += bool(pos) and all(isinstance(i, int) for i in pos[:1]) and any(
+                q['id'] == rules[pos[0]]['id'] for q in rules[:pos[0]]) and kind.split('@')[0] in (
+                'undefined-signer', 'temporary-signer', 'signing-cycle-1', 'signing-cycle-2', 'signing-cycle-3')
             kinds_seen[kind] = kinds_seen.get(kind, 0) + 1
             ctx.nt('Ci%d/%s/%s' % (s, kind, pos))
             jobs.append((sid, kind, pos, K.render(bad), bad))
@@ -563,6 +590,9 @@ def stage_c(ctx, procs):
     ctx.note('C: %d generated schemas, %d injected static errors, %d single-field corruptions of %d compiled models, '
              '%d step-bounded queries on accepted models' % (nschema, ninj, ncor, sum(1 for k, o in enumerate(originals) if k < ncorrupt and len(o[2].model.nodes) <= MAX_NODES_CORRUPTED), nterm))
     ctx.note('C: kinds exercised: %s' % json.dumps(kinds_seen, sort_keys=True))
+    ctx.note('C: %d of the injected signing errors sit in a second or later definition of a rule defined several times' % nlater)
+    if nschema >= 10 and not nlater:
+        raise tlc.MachineryError('C: no signing error was injected into a later definition of a rule (dimension vacuous)')
     ctx.extra['kinds_exercised'] = kinds_seen
     ver = K.judge(ctx, wrecs + srecs, 'c13c', procs)
     stats = {}
